@@ -117,9 +117,19 @@ type bRegistry struct {
 	ids   map[string]int
 	next  int
 	types map[int]types.Type
+	meta  map[int]bObjMeta
 }
 
-func newRegistry() *bRegistry { return &bRegistry{ids: map[string]int{}, next: 1000, types: map[int]types.Type{}} }
+// bObjMeta lets any path re-create a symbolic input object it has not touched yet.
+type bObjMeta struct {
+	name string
+	typ  types.Type
+	arr  bool
+}
+
+func newRegistry() *bRegistry {
+	return &bRegistry{ids: map[string]int{}, next: 1000, types: map[int]types.Type{}, meta: map[int]bObjMeta{}}
+}
 
 func (r *bRegistry) idFor(name string) int {
 	if id, ok := r.ids[name]; ok {
